@@ -1,6 +1,6 @@
 (* C14 Injected code runs once in the current scope (interpreter level). Statements only. *)
 From Coq Require Import ZArith List Bool Arith.
-From OP Require Import lib.Obs model.Interp model.InterpRun model.C14 proofs.Interp_inv proofs.C05_proofs proofs.Interp_fields proofs.C02_proofs proofs.C14_proofs.
+From OP Require Import lib.Obs model.Interp model.InterpRun model.C14 proofs.Interp_inv proofs.C05_proofs proofs.Interp_fields proofs.C02_proofs proofs.C14_proofs proofs.Interp_stack proofs.C02_order proofs.C14_order.
 Import ListNotations.
 Open Scope Z_scope.
 
@@ -23,6 +23,18 @@ Theorem C14_lines_run_at_most_once_with_injections : forall p ts main s now m,
          (C14_proofs.states p main s now ts).
 Proof. intros p ts. exact (run_with_injections_monotone p ts). Qed.
 Print Assumptions C14_lines_run_at_most_once_with_injections.
+
+(* Scope. Over whole runs with injections at any ticks (injected roots have no parent line: roots_ok_b, evaluated by the
+   monitor on every case, like wf_b), outside Alarm and Macro bodies a started line -- of the method or of a snippet -- lies
+   in a scope (parent line) that has started: the lines of a snippet run inside the snippet's own scopes, and no injection
+   makes a method line start outside its scope. (Stack invariant of C02 carried through the injections: an injection adds one
+   generator, the visit of a parentless root, and changes no started flag.) *)
+Theorem C14_started_lines_lie_in_started_scopes_with_injections : forall p ts, wf_b p = true -> C14_order.roots_ok_b p ts = true ->
+  Forall (fun s => forall c q, n_parent (nd p c) = Some q -> C02_order.plain p c = true -> C02_order.plain p q = true ->
+                               started (st s c) = true -> started (st s q) = true)
+         (C14_proofs.states p [FVisit 0] (InterpRun.init p) 0 ts).
+Proof. intros p ts W. exact (scope_with_injections p W ts). Qed.
+Print Assumptions C14_started_lines_lie_in_started_scopes_with_injections.
 
 (* PARTIAL (interpreter level). Decided by the Coq monitor on the real interpreter: a snippet is inert before its injection;
    with snippets that have no Block / End block(s) the method lines are, tick by tick, exactly where the model's run of the
